@@ -1,7 +1,468 @@
-/- Helper lemmas for C19 (statements of the property theorems are fixed in MysyncProofs/C19.lean). -/
+/- Helper lemmas for C19 (statements of the property theorems are fixed in MysyncProofs/C19.lean).
+Part 1 (`OptimizationTrace`): `Equal`, `runCalls`, the shape of `sync`'s trace.
+Part 2 (`OptimizationWorld`): the registry+settings world under a trace.
+This file: the property theorems of C19 stated over `(sync cfg i).evs`. -/
 import MysyncModel.App.Optimization
+import MysyncProofs.Lemmas.OptimizationTrace
+import MysyncProofs.Lemmas.OptimizationWorld
 
 namespace OptimizationLemmas
 open NS Optimization
+
+/-! ### classification -/
+
+theorem classify_lost (cfg : Cfg) (m : RS) (r : RegHost) (en : Bool) (he : r.enabled = some en)
+    (h : r.isMaster = true ∨ r.lag = none) : classify cfg m r = .cls .malfunctioning := by
+  unfold classify
+  rw [he]
+  rcases h with h | h <;> simp [h]
+
+theorem classify_converged (cfg : Cfg) (m : RS) (r : RegHost) (en : Bool) (l : Int) (he : r.enabled = some en)
+    (hm : r.isMaster = false) (hl : r.lag = some l)
+    (hc : (en = false ∧ l < cfg.highMark) ∨ (en = true ∧ l < cfg.lowMark)) : classify cfg m r = .cls .optimized := by
+  unfold classify
+  rw [he]
+  rcases hc with ⟨h1, h2⟩ | ⟨h1, h2⟩ <;> simp [hm, hl, h1, h2]
+
+/-- a host with a registry record and known settings gets a class -/
+theorem classify_cls (cfg : Cfg) (m : RS) (r : RegHost) (he : r.enabled.isSome = true) (hs : r.settings.isSome = true) :
+    ∃ c, classify cfg m r = .cls c := by
+  obtain ⟨en, he⟩ := Option.isSome_iff_exists.1 he
+  obtain ⟨s, hs⟩ := Option.isSome_iff_exists.1 hs
+  unfold classify
+  rw [he, hs]
+  dsimp only
+  repeat' split
+  all_goals exact ⟨_, rfl⟩
+
+/-- a `disabled` host runs with the master's settings -/
+theorem classify_disabled (cfg : Cfg) (m : RS) (r : RegHost) (h : classify cfg m r = .cls .disabled) :
+    ∃ s, r.settings = some s ∧ s = m := by
+  revert h
+  unfold classify
+  rcases r.enabled with _ | en
+  · simp
+  rcases r.settings with _ | s
+  · dsimp only
+    intro h
+    repeat' split at h
+    all_goals simp at h
+  · dsimp only
+    intro h
+    refine ⟨s, rfl, ?_⟩
+    by_cases heq : Gen.ReplSettings.Equal s m = true
+    · exact (equal_iff _ _).1 heq
+    · exfalso
+      simp only [heq, Bool.not_false, if_true] at h
+      repeat' split at h
+      all_goals simp at h
+
+theorem wait_returns_unless_enabled (m : Int) (state : Option Bool) (lag : Option Int) (h : state ≠ some true) :
+    isOptimizedDuringWaiting m state lag = (true, false) := by
+  unfold isOptimizedDuringWaiting
+  rcases state with _ | _ | _
+  · rfl
+  · rfl
+  · exact absurd rfl h
+
+/-! ### `disableAll` -/
+
+theorem mem_disableAll (registry given : List String) (fails : Call → Bool) (e : Ev) :
+    e ∈ disableAll registry given fails ↔ ∃ h ∈ registry, h ∈ given ∧
+      (if fails (.restore h) then e = ⟨.restore h, false⟩
+       else e = ⟨.restore h, true⟩ ∨ e = ⟨.deregister h, !fails (.deregister h)⟩) := by
+  unfold disableAll
+  simp only [List.mem_flatMap]
+  constructor
+  · rintro ⟨h, hr, he⟩
+    by_cases hg : h ∈ given
+    · refine ⟨h, hr, hg, ?_⟩
+      have : given.contains h = true := by simpa using hg
+      simp only [this, Bool.not_true, Bool.false_eq_true, if_false] at he
+      cases hf : fails (.restore h) <;> simp only [hf, if_true, if_false, Bool.false_eq_true] at he ⊢ <;>
+        simpa using he
+    · simp at he
+      exact absurd he.1 hg
+  · rintro ⟨h, hr, hg, he⟩
+    refine ⟨h, hr, ?_⟩
+    have : given.contains h = true := by simpa using hg
+    simp only [this, Bool.not_true, Bool.false_eq_true, if_false]
+    cases hf : fails (.restore h) <;> simp only [hf, if_true, if_false, Bool.false_eq_true] at he ⊢ <;>
+      simpa using he
+
+theorem disableAll_restores_then_drops (registry given : List String) (fails : Call → Bool) (h : String) (ok : Bool)
+    (hd : (⟨.deregister h, ok⟩ : Ev) ∈ disableAll registry given fails) :
+    h ∈ registry ∧ h ∈ given ∧ fails (.restore h) = false ∧ (⟨.restore h, true⟩ : Ev) ∈ disableAll registry given fails := by
+  obtain ⟨x, hr, hg, he⟩ := (mem_disableAll _ _ _ _).1 hd
+  split at he
+  · simp at he
+  · rename_i hf
+    simp at he
+    obtain ⟨rfl, _⟩ := he
+    refine ⟨hr, hg, by simpa using hf, (mem_disableAll _ _ _ _).2 ⟨h, hr, hg, ?_⟩⟩
+    simp [hf]
+
+theorem disableAll_complete (registry given : List String) (w : World) (m : RS)
+    (hw : w.registered = registry) :
+    let w' := w.run m (disableAll registry given fun _ => false)
+    (∀ h ∈ given, h ∉ w'.registered) ∧ (∀ h ∈ given, h ∈ registry → w'.get h = m) := by
+  have hnr : NoReg (disableAll registry given fun _ => false) := by
+    intro e he x
+    obtain ⟨y, _, _, h⟩ := (mem_disableAll _ _ _ _).1 he
+    simp at h
+    rcases h with h | h <;> simp [h]
+  have hnx : ∀ x, (⟨.relax x, true⟩ : Ev) ∉ disableAll registry given fun _ => false := by
+    intro x he
+    obtain ⟨y, _, _, h⟩ := (mem_disableAll _ _ _ _).1 he
+    simp at h
+  refine ⟨fun h hg hmem => ?_, fun h hg hr => ?_⟩
+  · have hr : h ∈ registry := hw ▸ (run_registered_sublist w m _ hnr).subset hmem
+    exact run_deregistered w m _ h hnr ((mem_disableAll _ _ _ _).2 ⟨h, hr, hg, by simp⟩) hmem
+  · exact get_run_restored w m _ h ((mem_disableAll _ _ _ _).2 ⟨h, hr, hg, by simp⟩) (hnx h)
+
+
+/-! ### membership in `sync`'s trace -/
+
+/-- every event of `sync` is a restore or a deregistration of `toDisable`, or belongs to the balance part -/
+theorem sync_mem (cfg : Cfg) (i : SyncIn) (e : Ev) (he : e ∈ (sync cfg i).evs) :
+    e.call ∈ restoreCalls (toDisable cfg i) ∨ e.call ∈ deregCalls (toDisable cfg i) ∨ e ∈ (balance cfg i).evs := by
+  rcases sync_cases cfg i with h | ⟨h, _⟩ | ⟨h, _⟩ | h <;> rw [h] at he
+  · simp [SyncOut.evs] at he
+  · exact Or.inl (runCalls_mem _ _ _ he)
+  · simp only [SyncOut.evs, List.mem_append] at he
+    rcases he with he | he
+    · exact Or.inl ((mem_okEvs _ _).1 he).2
+    · exact Or.inr (Or.inl (runCalls_mem _ _ _ he))
+  · simp only [evs_prepend, List.mem_append] at he
+    rcases he with (he | he) | he
+    · exact Or.inl ((mem_okEvs _ _).1 he).2
+    · exact Or.inr (Or.inl ((mem_okEvs _ _).1 he).2)
+    · exact Or.inr (Or.inr he)
+
+theorem sync_noReg (cfg : Cfg) (i : SyncIn) : NoReg (sync cfg i).evs := by
+  intro e he x hx
+  rcases sync_mem cfg i e he with h | h | h
+  · obtain ⟨r, _, _, h⟩ := (mem_restoreCalls _ _).1 h; simp [hx] at h
+  · obtain ⟨r, _, h⟩ := (mem_deregCalls _ _).1 h; simp [hx] at h
+  · rcases balance_mem cfg i e h with ⟨r, _, _, h⟩ | h | h <;> simp [hx] at h
+
+/-- only the `special` host is ever relaxed -/
+theorem sync_relax_special (cfg : Cfg) (i : SyncIn) (x : String) (ok : Bool)
+    (he : (⟨.relax x, ok⟩ : Ev) ∈ (sync cfg i).evs) : x = special cfg i := by
+  rcases sync_mem cfg i _ he with h | h | h
+  · obtain ⟨r, _, _, h⟩ := (mem_restoreCalls _ _).1 h; simp at h
+  · obtain ⟨r, _, h⟩ := (mem_deregCalls _ _).1 h; simp at h
+  · rcases balance_mem cfg i _ h with ⟨r, _, _, h⟩ | h | h <;> simp at h
+    exact h
+
+/-! ### `sync_relaxes_at_most_one` -/
+
+def isRelax (e : Ev) : Bool := match e.call with | .relax _ => true | _ => false
+
+theorem filter_isRelax_nil (l : List Ev) (h : ∀ e ∈ l, ∀ x, e.call ≠ .relax x) : l.filter isRelax = [] := by
+  rw [List.filter_eq_nil_iff]
+  intro e he
+  have := h e he
+  unfold isRelax
+  split
+  · rename_i x hx; exact absurd hx (this x)
+  · simp
+
+theorem filter_isRelax_runCalls_restore (fails : Call → Bool) (l : List RegHost) :
+    (runCalls fails (restoreCalls l)).1.filter isRelax = [] := by
+  apply filter_isRelax_nil
+  intro e he x hx
+  obtain ⟨r, _, _, h⟩ := (mem_restoreCalls _ _).1 (runCalls_mem _ _ _ he)
+  simp [hx] at h
+
+theorem filter_isRelax_runCalls_dereg (fails : Call → Bool) (l : List RegHost) :
+    (runCalls fails (deregCalls l)).1.filter isRelax = [] := by
+  apply filter_isRelax_nil
+  intro e he x hx
+  obtain ⟨r, _, h⟩ := (mem_deregCalls _ _).1 (runCalls_mem _ _ _ he)
+  simp [hx] at h
+
+theorem filter_isRelax_okEvs_restore (l : List RegHost) : (okEvs (restoreCalls l)).filter isRelax = [] := by
+  apply filter_isRelax_nil
+  intro e he x hx
+  obtain ⟨r, _, _, h⟩ := (mem_restoreCalls _ _).1 ((mem_okEvs _ _).1 he).2
+  simp [hx] at h
+
+theorem filter_isRelax_okEvs_dereg (l : List RegHost) : (okEvs (deregCalls l)).filter isRelax = [] := by
+  apply filter_isRelax_nil
+  intro e he x hx
+  obtain ⟨r, _, h⟩ := (mem_deregCalls _ _).1 ((mem_okEvs _ _).1 he).2
+  simp [hx] at h
+
+theorem syncNodeOptions_relax_le (i : SyncIn) (h : RegHost) : ((syncNodeOptions i h).filter isRelax).length ≤ 1 := by
+  unfold syncNodeOptions
+  split
+  · exact List.length_filter_le _ _
+  · split
+    · rw [List.filter_cons_of_neg (by simp [isRelax])]; exact List.length_filter_le _ _
+    · exact List.length_filter_le _ _
+
+theorem balance_relax_le (cfg : Cfg) (i : SyncIn) : ((balance cfg i).evs.filter isRelax).length ≤ 1 := by
+  unfold balance
+  generalize ofClass cfg i .optimizing = o
+  generalize ofClass cfg i .disabled = d
+  rcases o with _ | ⟨f, _ | ⟨s, r⟩⟩
+  · rcases d with _ | ⟨d, _⟩
+    · simp [SyncOut.evs]
+    · dsimp only; split
+      · simp [SyncOut.evs]
+      · exact List.length_filter_le _ _
+  · dsimp only; split
+    · simp [SyncOut.evs]
+    · exact syncNodeOptions_relax_le i f
+  · dsimp only
+    split
+    · simp [SyncOut.evs, filter_isRelax_runCalls_restore]
+    · split
+      · simp [SyncOut.evs, filter_isRelax_runCalls_restore]
+      · simp only [SyncOut.evs, List.filter_append, filter_isRelax_runCalls_restore, List.nil_append]
+        exact syncNodeOptions_relax_le i f
+
+theorem sync_relaxes_at_most_one (cfg : Cfg) (i : SyncIn) : ((sync cfg i).evs.filter isRelax).length ≤ 1 := by
+  rcases sync_cases cfg i with h | ⟨h, _⟩ | ⟨h, _⟩ | h <;> rw [h]
+  · simp [SyncOut.evs]
+  · simp [SyncOut.evs, filter_isRelax_runCalls_restore]
+  · simp [SyncOut.evs, filter_isRelax_okEvs_restore, filter_isRelax_runCalls_dereg]
+  · simp only [evs_prepend, List.filter_append, filter_isRelax_okEvs_restore, filter_isRelax_okEvs_dereg, List.nil_append]
+    exact balance_relax_le cfg i
+
+/-! ### `lost_and_converged_are_dropped` -/
+
+theorem lost_and_converged_are_dropped (cfg : Cfg) (i : SyncIn) (t : List Ev) (r : RegHost)
+    (hok : ∀ c, i.fails c = false) (hs : sync cfg i = .trace t) (hr : r ∈ toDisable cfg i) :
+    (⟨.deregister r.name, true⟩ : Ev) ∈ t ∧ (r.hasNode = true → (⟨.restore r.name, true⟩ : Ev) ∈ t) := by
+  rcases sync_nofail cfg i hok with h | h <;> rw [h] at hs
+  · simp at hs
+  · obtain ⟨tb, _, rfl⟩ := prepend_eq_trace _ _ _ hs
+    constructor
+    · apply List.mem_append_left; apply List.mem_append_right
+      exact (mem_okEvs _ _).2 ⟨rfl, (mem_deregCalls _ _).2 ⟨r, hr, rfl⟩⟩
+    · intro hn
+      apply List.mem_append_left; apply List.mem_append_left
+      exact (mem_okEvs _ _).2 ⟨rfl, (mem_restoreCalls _ _).2 ⟨r, hr, hn, rfl⟩⟩
+
+
+/-- an element that does not occur in `p` sits behind `p` in `p ++ q` -/
+theorem split_behind_prefix {α : Type} (e : α) (pre post p q : List α) (h : pre ++ e :: post = p ++ q) (he : e ∉ p) :
+    ∃ c, pre = p ++ c ∧ q = c ++ e :: post := by
+  induction p generalizing pre with
+  | nil => exact ⟨pre, rfl, h.symm⟩
+  | cons a p ih =>
+    cases pre with
+    | nil =>
+      simp only [List.nil_append, List.cons_append, List.cons.injEq] at h
+      exact absurd (h.1 ▸ List.mem_cons_self) he
+    | cons b pre =>
+      simp only [List.cons_append, List.cons.injEq] at h
+      obtain ⟨c, h1, h2⟩ := ih pre h.2 (fun hm => he (List.mem_cons_of_mem _ hm))
+      exact ⟨c, by rw [h.1, h1]; rfl, h2⟩
+
+/-! ### `restore_before_deregister` -/
+
+/-- either nothing is deregistered, or all restores of `toDisable` went through first and only hosts of
+`toDisable` are deregistered -/
+theorem sync_evs_shape (cfg : Cfg) (i : SyncIn) :
+    (∀ e ∈ (sync cfg i).evs, ∀ x, e.call ≠ .deregister x) ∨
+    ∃ rest, (sync cfg i).evs = okEvs (restoreCalls (toDisable cfg i)) ++ rest ∧
+      ∀ e ∈ rest, ∀ x, e.call = .deregister x → ∃ r ∈ toDisable cfg i, r.name = x := by
+  have hd : ∀ e : Ev, e.call ∈ deregCalls (toDisable cfg i) → ∀ x, e.call = .deregister x →
+      ∃ r ∈ toDisable cfg i, r.name = x := by
+    intro e he x hx
+    obtain ⟨r, hr, h⟩ := (mem_deregCalls _ _).1 he
+    rw [hx] at h
+    injection h with h
+    exact ⟨r, hr, h.symm⟩
+  rcases sync_cases cfg i with h | ⟨h, _⟩ | ⟨h, _⟩ | h <;> rw [h]
+  · left; simp [SyncOut.evs]
+  · left
+    intro e he x hx
+    obtain ⟨r, _, _, h⟩ := (mem_restoreCalls _ _).1 (runCalls_mem _ _ _ he)
+    simp [hx] at h
+  · right
+    exact ⟨_, rfl, fun e he => hd e (runCalls_mem _ _ _ he)⟩
+  · right
+    refine ⟨okEvs (deregCalls (toDisable cfg i)) ++ (balance cfg i).evs, by simp [evs_prepend], ?_⟩
+    intro e he x hx
+    rcases List.mem_append.1 he with he | he
+    · exact hd e ((mem_okEvs _ _).1 he).2 x hx
+    · rcases balance_mem cfg i e he with ⟨r, _, _, h⟩ | h | h <;> simp [hx] at h
+
+theorem restore_before_deregister (cfg : Cfg) (i : SyncIn) (pre post : List Ev) (h : String) (ok : Bool)
+    (hsplit : (sync cfg i).evs = pre ++ ⟨.deregister h, ok⟩ :: post) :
+    (⟨.restore h, true⟩ : Ev) ∈ pre ∨ ∃ r ∈ i.hosts, r.name = h ∧ r.hasNode = false := by
+  rcases sync_evs_shape cfg i with hno | ⟨rest, hrest, hd⟩
+  · exact absurd rfl (hno ⟨.deregister h, ok⟩ (by rw [hsplit]; simp) h)
+  · rw [hrest] at hsplit
+    have hnot : (⟨.deregister h, ok⟩ : Ev) ∉ okEvs (restoreCalls (toDisable cfg i)) := by
+      intro hm
+      obtain ⟨r, _, _, h⟩ := (mem_restoreCalls _ _).1 ((mem_okEvs _ _).1 hm).2
+      simp at h
+    obtain ⟨c, hpre, hq⟩ := split_behind_prefix _ _ _ _ _ hsplit.symm hnot
+    obtain ⟨r, hr, hname⟩ := hd ⟨.deregister h, ok⟩ (by rw [hq]; simp) h rfl
+    cases hn : r.hasNode
+    · exact Or.inr ⟨r, ((mem_toDisable _ _ _).1 hr).1, hname, hn⟩
+    · left
+      rw [hpre]
+      apply List.mem_append_left
+      exact (mem_okEvs _ _).2 ⟨rfl, (mem_restoreCalls _ _).2 ⟨r, hr, hn, by rw [hname]⟩⟩
+
+/-! ### `failed_restore_drops_nothing` -/
+
+theorem balance_failed_restore (cfg : Cfg) (i : SyncIn) (h : String)
+    (hf : (⟨.restore h, false⟩ : Ev) ∈ (balance cfg i).evs) :
+    (balance cfg i).evs.getLast? = some ⟨.restore h, false⟩ := by
+  unfold balance at *
+  generalize ofClass cfg i .optimizing = o at *
+  generalize ofClass cfg i .disabled = d at *
+  have hsno : ∀ f, (⟨.restore h, false⟩ : Ev) ∉ syncNodeOptions i f := by
+    intro f hm
+    rcases syncNodeOptions_mem i f _ hm with h | h <;> simp at h
+  rcases o with _ | ⟨f, _ | ⟨s, r⟩⟩
+  · rcases d with _ | ⟨d, _⟩
+    · simp [SyncOut.evs] at hf
+    · dsimp only at hf
+      split at hf <;> simp [SyncOut.evs] at hf
+  · dsimp only at hf
+    split at hf
+    · simp [SyncOut.evs] at hf
+    · exact absurd hf (hsno f)
+  · dsimp only at hf ⊢
+    cases h3 : (runCalls i.fails (restoreCalls (s :: r))).2
+    · simp only [h3, Bool.not_false, if_true, SyncOut.evs] at hf ⊢
+      exact (runCalls_failed _ _ _ hf).1
+    · exfalso
+      have hno : (⟨.restore h, false⟩ : Ev) ∉ (runCalls i.fails (restoreCalls (s :: r))).1 := by
+        intro hm
+        have := (runCalls_failed _ _ _ hm).2
+        rw [h3] at this; cases this
+      simp only [h3, Bool.not_true, Bool.false_eq_true, if_false] at hf
+      split at hf
+      · exact hno hf
+      · simp only [SyncOut.evs, List.mem_append] at hf
+        rcases hf with hf | hf
+        · exact hno hf
+        · exact hsno f hf
+
+theorem failed_restore_drops_nothing (cfg : Cfg) (i : SyncIn) (h : String)
+    (hf : (⟨.restore h, false⟩ : Ev) ∈ (sync cfg i).evs) :
+    (sync cfg i).evs.getLast? = some ⟨.restore h, false⟩ ∧ ∀ x ok, (⟨.deregister x, ok⟩ : Ev) ∈ (sync cfg i).evs →
+      ∃ pre post, (sync cfg i).evs = pre ++ ⟨.deregister x, ok⟩ :: post ∧ (⟨.restore h, false⟩ : Ev) ∈ post := by
+  have hR : ∀ x ok, (⟨.deregister x, ok⟩ : Ev) ∉ (runCalls i.fails (restoreCalls (toDisable cfg i))).1 := by
+    intro x ok hm
+    obtain ⟨r, _, _, h⟩ := (mem_restoreCalls _ _).1 (runCalls_mem _ _ _ hm)
+    simp at h
+  rcases sync_cases cfg i with hc | ⟨hc, _⟩ | ⟨hc, _⟩ | hc <;> rw [hc] at hf ⊢
+  · simp [SyncOut.evs] at hf
+  · exact ⟨(runCalls_failed _ _ _ hf).1, fun x ok hm => absurd hm (hR x ok)⟩
+  · exfalso
+    simp only [SyncOut.evs, List.mem_append] at hf
+    rcases hf with hf | hf
+    · have := ((mem_okEvs _ _).1 hf).1; simp at this
+    · obtain ⟨r, _, h⟩ := (mem_deregCalls _ _).1 (runCalls_mem _ _ _ hf)
+      simp at h
+  · simp only [evs_prepend, List.mem_append] at hf ⊢
+    have hb : (⟨.restore h, false⟩ : Ev) ∈ (balance cfg i).evs := by
+      rcases hf with (hf | hf) | hf
+      · have := ((mem_okEvs _ _).1 hf).1; simp at this
+      · have := ((mem_okEvs _ _).1 hf).1; simp at this
+      · exact hf
+    refine ⟨by rw [List.getLast?_append, balance_failed_restore cfg i h hb]; rfl, ?_⟩
+    intro x ok hm
+    rcases hm with (hm | hm) | hm
+    · obtain ⟨r, _, _, h⟩ := (mem_restoreCalls _ _).1 ((mem_okEvs _ _).1 hm).2
+      simp at h
+    · obtain ⟨a, b, hab⟩ := List.append_of_mem hm
+      refine ⟨okEvs (restoreCalls (toDisable cfg i)) ++ a, b ++ (balance cfg i).evs, ?_, List.mem_append_right _ hb⟩
+      rw [hab]; simp
+    · rcases balance_mem cfg i _ hm with ⟨r, _, _, h⟩ | h | h <;> simp at h
+
+
+/-! ### `sync_at_most_one` -/
+
+theorem balance_restores_rest (cfg : Cfg) (i : SyncIn) (hok : ∀ c, i.fails c = false) (f r : RegHost)
+    (rest : List RegHost) (ho : ofClass cfg i .optimizing = f :: rest) (hr : r ∈ rest) (hn : r.hasNode = true) :
+    (⟨.restore r.name, true⟩ : Ev) ∈ (balance cfg i).evs := by
+  have hm : ∀ l, r ∈ l → (⟨.restore r.name, true⟩ : Ev) ∈ okEvs (restoreCalls l) := fun l hl =>
+    (mem_okEvs _ _).2 ⟨rfl, (mem_restoreCalls _ _).2 ⟨r, hl, hn, rfl⟩⟩
+  unfold balance
+  rw [ho]
+  rcases rest with _ | ⟨s, r'⟩
+  · simp at hr
+  · dsimp only
+    rw [runCalls_nofail _ hok]
+    simp only [Bool.not_true, Bool.false_eq_true, if_false]
+    split
+    · exact hm _ hr
+    · exact List.mem_append_left _ (hm _ hr)
+
+theorem nodup_all_eq_length_le_one {α : Type} (l : List α) (a : α) (hn : l.Nodup) (h : ∀ x ∈ l, x = a) :
+    l.length ≤ 1 := by
+  rcases l with _ | ⟨x, _ | ⟨y, l⟩⟩
+  · simp
+  · simp
+  · exfalso
+    have hx := h x (by simp)
+    have hy := h y (by simp)
+    simp [hx, hy] at hn
+
+/-- the hypotheses of C19's `Consistent`, restated so that the lemma does not depend on the property file -/
+theorem sync_at_most_one (cfg : Cfg) (i : SyncIn) (w : World) (t : List Ev)
+    (hreg : w.registered = i.hosts.map (·.name)) (hnd : (i.hosts.map (·.name)).Nodup)
+    (hh : ∀ h ∈ i.hosts, h.hasNode = true ∧ h.settings = some (w.get h.name) ∧ h.enabled.isSome = true)
+    (hok : ∀ c, i.fails c = false) (hs : sync cfg i = .trace t) :
+    ((w.run i.masterRs t).relaxed i.masterRs (w.run i.masterRs t).registered).length ≤ 1 := by
+  have hevs : (sync cfg i).evs = t := by rw [hs]; rfl
+  have hnr : NoReg t := hevs ▸ sync_noReg cfg i
+  have hsub := run_registered_sublist w i.masterRs t hnr
+  -- every registered host except the special one ends with the master's settings
+  have key : ∀ x ∈ (w.run i.masterRs t).registered, x ≠ special cfg i →
+      Gen.ReplSettings.Equal ((w.run i.masterRs t).get x) i.masterRs = true := by
+    intro x hx hne
+    have hx0 : x ∈ i.hosts.map (·.name) := hreg ▸ hsub.subset hx
+    obtain ⟨r, hr, rfl⟩ := List.mem_map.1 hx0
+    obtain ⟨hn, hset, hen⟩ := hh r hr
+    have hnorelax : (⟨.relax r.name, true⟩ : Ev) ∉ t := fun hm =>
+      hne (sync_relax_special cfg i _ _ (hevs ▸ hm))
+    have hnd' : r ∉ toDisable cfg i := fun hm =>
+      run_deregistered w i.masterRs t r.name hnr (lost_and_converged_are_dropped cfg i t r hok hs hm).1 hx
+    obtain ⟨c, hc⟩ := classify_cls cfg i.masterRs r hen (by rw [hset]; rfl)
+    cases c with
+    | malfunctioning => exact absurd ((mem_toDisable _ _ _).2 ⟨hr, Or.inr hc⟩) hnd'
+    | optimized => exact absurd ((mem_toDisable _ _ _).2 ⟨hr, Or.inl hc⟩) hnd'
+    | disabled =>
+      obtain ⟨s, hs1, hs2⟩ := classify_disabled cfg i.masterRs r hc
+      rw [hset] at hs1
+      injection hs1 with hs1
+      rcases get_run_no_relax w i.masterRs t r.name hnorelax with h | h <;> rw [h]
+      · exact equal_refl _
+      · rw [hs1, hs2]; exact equal_refl _
+    | optimizing =>
+      have hro : r ∈ ofClass cfg i .optimizing := (mem_ofClass _ _ _ _).2 ⟨hr, hc⟩
+      rcases ho : ofClass cfg i .optimizing with _ | ⟨f, rest⟩
+      · rw [ho] at hro; simp at hro
+      · rw [ho] at hro
+        have hsp : special cfg i = f.name := by unfold special; rw [ho]
+        rcases List.mem_cons.1 hro with rfl | hrest
+        · exact absurd hsp.symm hne
+        · have hb := balance_restores_rest cfg i hok f r rest ho hrest hn
+          have hm : (⟨.restore r.name, true⟩ : Ev) ∈ t := by
+            rcases sync_nofail cfg i hok with h | h
+            · rw [h] at hs; simp at hs
+            · rw [← hevs, h, evs_prepend]; exact List.mem_append_right _ hb
+          rw [get_run_restored w i.masterRs t r.name hm hnorelax]
+          exact equal_refl _
+  have hnodup : (w.run i.masterRs t).registered.Nodup := hsub.nodup (hreg ▸ hnd)
+  apply nodup_all_eq_length_le_one _ (special cfg i) (hnodup.filter _)
+  intro x hx
+  simp only [List.mem_filter] at hx
+  by_cases hne : x = special cfg i
+  · exact hne
+  · have := key x hx.1 hne
+    simp [this] at hx
 
 end OptimizationLemmas
